@@ -206,13 +206,15 @@ def explore(tier, seed):
                     target = os.path.join(cwd, "t.pas")
                     open(target, "w").write("a  ;\n")
                     os.utime(target, (OLD, OLD))
+                    # (the verdict must not depend on the verbosity: every second case runs with logging off)
+                    quiet = ["--log-level", "OFF"] if k % 2 == 0 else []
                     if mode == "files":
-                        rc, out, err = cli.run(args + [target], cwd=cwd)
+                        rc, out, err = cli.run(quiet + args + [target], cwd=cwd)
                     else:
-                        rc, out, err = cli.run(args, stdin=b"a  ;\n", cwd=cwd)
+                        rc, out, err = cli.run(quiet + args, stdin=b"a  ;\n", cwd=cwd)
                     inv.case(nontrivial=True)
                     inv.transitions += 1
-                    case = {"oracle": "c19", "invalid": [key, val], "source": source, "mode": mode}
+                    case = {"oracle": "c19", "invalid": [key, val], "source": source, "mode": mode, "log_level_off": bool(quiet), "no_confirm": True}
                     if rc == 0:
                         sig = "invalid-setting-accepted:scalar-of-another-type-coerced-by-config-crate" if coerced else "invalid-setting-accepted"
                         inv.fail("C19", sig, f"{key}={val} via {source}: exit 0, stdout {out[:60]!r}", case)
